@@ -121,15 +121,30 @@ Definition has_nan (v : value) : bool :=
   match v with VNum _ d => existsb f_is_nan d | _ => false end.
 Definition is_num_ty (v : value) : bool := match v with VNum _ _ | VByte _ _ => true | _ => false end.
 Definition is_scalar (v : value) : bool := match shape_of v with [] => true | _ => false end.
+Definition has_nan_c (v : value) : bool :=
+  match v with VCplx _ d => existsb (fun c => f_is_nan (fst c) || f_is_nan (snd c)) d | _ => false end.
+Definition is_char_ty (v : value) : bool := match v with VChar _ _ => true | _ => false end.
+Definition rank_le1 (v : value) : bool := Nat.leb (length (shape_of v)) 1.
+(** a number array whose first or last element is NaN (value.rs, maintain_both_sortedness) *)
+Definition nan_at_end (v : value) : bool :=
+  match v with
+  | VNum _ (x :: t) => f_is_nan x || f_is_nan (last t x)
+  | _ => false end.
 
-(** Value::or_sorted_flags_rev (value.rs:304-321).  [repaired = false] is the code before the
-    commit "fix: negating a character array must not mark the result as sorted" *)
-Definition or_sorted_rev (repaired : bool) (v : value) (cur taken : flags) : flags :=
-  if repaired && match v with VBox _ _ | VChar _ _ => true | _ => false end then clear_sorted cur
+(** versions of the code: 0 = before "fix: negating a character array must not mark the result
+    as sorted"; 1 = after it; 2 = after the round-2 mark repairs (f306b49, eea1d01, ade6601,
+    60de79d, 9703aa4, f50d52f, 7af2e92) = the current code *)
+Definition cur_ver : nat := 2.
+
+(** Value::or_sorted_flags_rev (value.rs:304-326).  Version 0 has no special case for
+    characters and boxes; versions 0 and 1 guard NaN in number arrays only, version 2 (f50d52f)
+    also in complex arrays *)
+Definition or_sorted_rev (ver : nat) (v : value) (cur taken : flags) : flags :=
+  if Nat.leb 1 ver && match v with VBox _ _ | VChar _ _ => true | _ => false end then clear_sorted cur
   else if negb (f_up taken || f_down taken) then cur
   else
     let f := or_sorted cur (reverse_sorted taken) in
-    if (f_up f || f_down f) && has_nan v then clear_sorted f else f.
+    if (f_up f || f_down f) && (has_nan v || (Nat.leb 2 ver && has_nan_c v)) then clear_sorted f else f.
 
 (** Array::derive_sortedness (array.rs:701-732), for wildcard-free data *)
 Definition derive_sortedness (v : value) (cur : flags) : flags :=
@@ -142,32 +157,46 @@ Definition try_shrink_flags (shrunk : value) (cur : flags) : flags :=
   | VByte _ d => if forallb (fun x => x <=? 1) d then FL true (f_up cur) (f_down cur) else cur
   | _ => cur end.
 
-(** the three `pre` rules of value_dy_math_impl (value.rs:2244-2340).  [a] is the argument the
-    marks are taken from, [b] the other one; [is_left] says whether [a] is the second operand. *)
-Definition pre_scalar (left : option bool) (a b : mvalue) (is_left : bool) : option flags :=
+(** the three `pre` rules of value_dy_math_impl (value.rs:2252-2395).  [a] is the argument the
+    marks are taken from, [b] the other one; [is_left] says whether [a] is the second operand.
+    [fixed = false] is the code before the round-2 repairs: the rules then applied to an [a] of
+    any element type and rank. *)
+Definition pre_scalar (fixed : bool) (left : option bool) (a b : mvalue) (is_left : bool) : option flags :=
   if negb (is_scalar (mv_v b) && is_num_ty (mv_v b)) then None
+  (* ade6601: only lists of real numbers or characters *)
+  else if fixed && negb (rank_le1 (mv_v a) && (is_num_ty (mv_v a) || is_char_ty (mv_v a))) then None
   else let f := sorted_part (mv_f a) in
        Some (match left with
              | Some l => if negb (Bool.eqb is_left l) then reverse_sorted f else f
              | None => f end).
-Definition pre_both (a b : mvalue) : option flags :=
+Definition pre_both (fixed : bool) (a b : mvalue) : option flags :=
   if negb (is_num_ty (mv_v a) && is_num_ty (mv_v b)) then None
+  (* eea1d01: no rows of several numbers; 7af2e92: no NaN at either end of either argument *)
+  else if fixed && (negb (rank_le1 (mv_v a) && rank_le1 (mv_v b)) || nan_at_end (mv_v a) || nan_at_end (mv_v b)) then None
   else let fa := sorted_part (mv_f a) in
        Some (if is_scalar (mv_v b) then fa
              else FL false (f_up fa && f_up (mv_f b)) (f_down fa && f_down (mv_f b))).
-(** sign of the scalar: None = NaN or infinite (no marks), Some true = negative *)
-Definition scalar_sign (b : value) : option bool :=
+(** sign of the scalar: None = NaN or infinite (no marks), Some true = negative.
+    60de79d: negative zero counts as negative (`is_sign_negative`), before it did not (`< 0.0`) *)
+Definition scalar_sign (fixed : bool) (b : value) : option bool :=
   match b with
   | VNum [] [x] => if f_is_nan x || (f_mag x =? F_INF_BITS) then None
-                   else Some (f_neg x && negb (f_mag x =? 0))
+                   else Some (if fixed then f_neg x else f_neg x && negb (f_mag x =? 0))
   | VByte [] [_] => Some false
   | _ => None end.
-Definition pre_signed (left : option bool) (a b : mvalue) (is_left : bool) : option flags :=
-  match scalar_sign (mv_v b) with
+Definition pre_signed (fixed : bool) (left : option bool) (a b : mvalue) (is_left : bool) : option flags :=
+  match scalar_sign fixed (mv_v b) with
   | None => None
   | Some negative =>
       let f := sorted_part (mv_f a) in
       let f := if negative then reverse_sorted f else f in
+      if fixed then
+        (* ade6601: only lists of real numbers; 9703aa4: no marks when the scalar is the dividend *)
+        if negb (rank_le1 (mv_v a) && is_num_ty (mv_v a)) then None
+        else match left with
+             | Some l => if negb (Bool.eqb is_left l) then None else Some f
+             | None => Some f end
+      else
       Some (match left with
             | Some l => if negb (Bool.eqb is_left l) then reverse_sorted f else f
             | None => f end)
@@ -273,15 +302,15 @@ Definition f_negate (x : f64) : f64 := N.lxor x F_NEG_ZERO.
     only through the label/map-key path: the flags of a byte argument are dropped with its
     metadata when the new array is built ((array.shape, new).into()), the flags of a number
     array stay (in place). *)
-Definition p_neg_num (repaired : bool) (m : mvalue) : res mvalue :=
+Definition p_neg_num (ver : nat) (m : mvalue) : res mvalue :=
   let taken := sorted_part (mv_f m) in
   match mv_v m with
   | VNum s d =>
       let v := VNum s (map f_negate d) in
-      Ok (MV v (or_sorted_rev repaired v (clear_sorted (mv_f m)) taken))
+      Ok (MV v (or_sorted_rev ver v (clear_sorted (mv_f m)) taken))
   | VByte s d =>
       let v := VNum s (map (fun b => f_negate (f_of_byte b)) d) in
-      Ok (MV v (or_sorted_rev repaired v fl_none taken))
+      Ok (MV v (or_sorted_rev ver v fl_none taken))
   | _ => Err end.
 
 (** negation of characters swaps the case; [swapped] is the result's data.  The old rule
@@ -289,7 +318,7 @@ Definition p_neg_num (repaired : bool) (m : mvalue) : res mvalue :=
 Definition p_neg_chars (repaired : bool) (m : mvalue) (swapped : list N) : res mvalue :=
   match mv_v m with
   | VChar s _ => let v := VChar s swapped in
-                 Ok (MV v (or_sorted_rev repaired v (clear_sorted (mv_f m)) (sorted_part (mv_f m))))
+                 Ok (MV v (or_sorted_rev (if repaired then cur_ver else 0%nat) v (clear_sorted (mv_f m)) (sorted_part (mv_f m))))
   | _ => Err end.
 
 (** Value::couple of two arrays of the same type and shape (dyadic/combine.rs:960-1000):
@@ -338,7 +367,7 @@ Definition both_bool (a b : mvalue) : bool :=
   | VByte _ _, VByte _ _ => f_bool (mv_f a) && f_bool (mv_f b)
   | _, _ => false end.
 
-Definition rule_flags (p : rprim) (args : list mvalue) (out : value) : option flags :=
+Definition rule_flags (fixed : bool) (p : rprim) (args : list mvalue) (out : value) : option flags :=
   let a := nth_arg args 0 in
   let b := nth_arg args 1 in
   match p with
@@ -348,27 +377,29 @@ Definition rule_flags (p : rprim) (args : list mvalue) (out : value) : option fl
   | RTranspose => if Nat.ltb (length (shape_of (mv_v a))) 2 then Some (mv_f a) else Some (clear_sorted (mv_f a))
   (* Value::wher (monadic/mod.rs:1840-1883): ascending; rank 0 also descending (all zeros) *)
   | RWhere => Some (FL false true (is_scalar (mv_v a)))
-  (* floor / ceil / round (value.rs:1889-1913): marks kept when the result's rank < 2 *)
+  (* floor / ceil / round (value.rs:1892-1921): marks kept when the result's rank < 2 and
+     (f306b49) the result is an array of real numbers *)
   | RFloor | RCeil | RRound =>
-      let f := match mv_v a with VByte _ _ | VNum _ _ | VCplx _ _ | VBox _ _ => clear_sorted (mv_f a) | _ => clear_sorted (mv_f a) end in
-      Some (if Nat.ltb (length (shape_of out)) 2 then or_sorted f (sorted_part (mv_f a)) else f)
+      let f := clear_sorted (mv_f a) in
+      Some (if Nat.ltb (length (shape_of out)) 2 && (negb fixed || is_num_ty out)
+            then or_sorted f (sorted_part (mv_f a)) else f)
   (* add / min / max: maintain_both_sortedness *)
   | RAdd | RMin | RMax =>
       let base := if both_bool a b then
                     (match p with RAdd => clear_value (clear_sorted (mv_f b)) | _ => clear_sorted (mv_f b) end)
                   else fl_none in
-      Some (handle_pre false out base (pre_both a b) (pre_both b a))
-  | RSub => Some (handle_pre false out fl_none (pre_scalar (Some true) a b false) (pre_scalar (Some true) b a true))
+      Some (handle_pre fixed out base (pre_both fixed a b) (pre_both fixed b a))
+  | RSub => Some (handle_pre fixed out fl_none (pre_scalar fixed (Some true) a b false) (pre_scalar fixed (Some true) b a true))
   | RMul => let base := if both_bool a b then clear_sorted (mv_f b) else fl_none in
-            Some (handle_pre true out base (pre_signed None a b false) (pre_signed None b a true))
-  | RDiv => Some (handle_pre true out fl_none (pre_signed (Some true) a b false) (pre_signed (Some true) b a true))
+            Some (handle_pre true out base (pre_signed fixed None a b false) (pre_signed fixed None b a true))
+  | RDiv => Some (handle_pre true out fl_none (pre_signed fixed (Some true) a b false) (pre_signed fixed (Some true) b a true))
   (* not (value.rs:1815-1824): numbers / boolean bytes / complex in place, other bytes into a
      fresh array; then or_sorted_flags_rev with the marks taken before *)
   | RNot =>
       let base := match mv_v a with
                   | VByte _ _ => if f_bool (mv_f a) then clear_sorted (mv_f a) else fl_none
                   | _ => clear_sorted (mv_f a) end in
-      Some (or_sorted_rev true out base (sorted_part (mv_f a)))
+      Some (or_sorted_rev (if fixed then cur_ver else 1%nat) out base (sorted_part (mv_f a)))
   (* scalar_abs (value.rs:1825-1833): numbers in place, bytes and complex into a fresh array; no marks *)
   | RAbs => Some (match mv_v a with VNum _ _ => clear_sorted (mv_f a) | _ => fl_none end)
   (* sign (value.rs:1834-1842): numbers, bytes, complex in place *)
@@ -392,7 +423,7 @@ Definition prim_c (p : cprim) (args : list mvalue) : res (list mvalue) :=
   | CDeshape, [a] => Ok [p_deshape a]
   | CSort, [a] => Ok [p_sort a]
   | CSortDown, [a] => Ok [p_sort_down a]
-  | CNeg, [a] => match p_neg_num true a with Ok r => Ok [r] | Err => Err end
+  | CNeg, [a] => match p_neg_num cur_ver a with Ok r => Ok [r] | Err => Err end
   | CCouple, [a; b] => match p_couple_same a b with Ok r => Ok [r] | Err => Err end
   | CRange, [a] => match mv_v a with
                    | VByte [] [n] => Ok [p_range_nat (N.to_nat n)]
@@ -415,7 +446,7 @@ Definition ccase_check (c : ccase) : N :=
     5 = the implementation's marks are not truthful, 4 = no rule *)
 Record rcase := RC { rc_p : rprim; rc_args : list mvalue; rc_out : mvalue }.
 Definition rcase_check (c : rcase) : N :=
-  match rule_flags (rc_p c) (rc_args c) (mv_v (rc_out c)) with
+  match rule_flags true (rc_p c) (rc_args c) (mv_v (rc_out c)) with
   | None => 4
   | Some f => if negb (flags_eqb f (mv_f (rc_out c))) then 2
               else if negb (wfb (rc_out c)) then 5 else 0
